@@ -43,6 +43,11 @@ use vproj::toml::Target;
 /// emitted into the defining file in the order their users were analysed.
 const GENERIC_ORDER_KNOWN: &str = "emitted-sv-depends-on-order:generic-specialisations-in-registration-order";
 
+/// Known finding: files that need each other (here: through a constant passed
+/// as generic argument by a third file) make `type_dag::insert_file_edge`
+/// panic (`WouldCycle`) — but only in some processing orders.
+const CYCLE_KNOWN: &str = "order-dependent-panic:file-dag-WouldCycle";
+
 /// Top-level `module|package|interface … end…` blocks of an emitted file and
 /// the lines outside of them.
 fn sv_blocks(text: &str) -> (Vec<String>, Vec<String>) {
@@ -249,6 +254,9 @@ fn common_classes(p: &P2Project, n_files: usize) -> BTreeSet<String> {
     if p.root.cfg.strip_comments {
         c.insert("strip_comments".into());
     }
+    if p.excluded_hidden_cycles > 0 {
+        c.insert("file_cycle_through_generic_argument_excluded".into());
+    }
     c.insert(if p.unified_generics { "one_specialisation_per_generic" } else { "generics_with_several_specialisations_possible" }.into());
     c
 }
@@ -340,7 +348,11 @@ fn permute_case(d: &mut Draw, thorough: bool) -> Outcome {
             Ok(g) => g,
             Err(m) => {
                 return Outcome::fail(
-                    format!("order-dependent-panic:{}", first_line(&m).chars().take(60).collect::<String>()),
+                    if m.contains("WouldCycle") {
+                        CYCLE_KNOWN.to_string()
+                    } else {
+                        format!("order-dependent-panic:{}", first_line(&m).chars().take(60).collect::<String>())
+                    },
                     format!("analysis/emission panics for processing order {order_txt:?} but not for the metadata order: {m}\nproject: {summary}"),
                     mk(json!(null)),
                 );
@@ -489,6 +501,51 @@ fn fixed_case(name: &str) -> Outcome {
         }
     }
     Outcome::pass(hash_str(name), false, vec!["fixed_reproducer_passes(defect_fixed?)".into()], format!("known/C24/{name}: no difference"))
+}
+
+/// Reproducer of CYCLE_KNOWN: error-free in metadata order, panics in another.
+fn fixed_cycle() -> Outcome {
+    let src = PathBuf::from("/verif/known/C24/generic-arg-file-cycle");
+    if !src.is_dir() {
+        return Outcome::skip("reproducer generic-arg-file-cycle is missing");
+    }
+    let ws = Workspace::new("c24h", "prj");
+    for (rel, bytes) in vcore::util::read_tree(&src) {
+        ws.write(&rel, &String::from_utf8_lossy(&bytes));
+    }
+    let Ok(root) = ws.root.canonicalize() else {
+        return Outcome::skip("scratch directory vanished");
+    };
+    let Ok(mut md) = Metadata::load(root.join("Veryl.toml")) else {
+        return Outcome::skip("reproducer Veryl.toml not accepted");
+    };
+    let Ok(paths) = md.paths::<PathBuf>(&[], true, true) else {
+        return Outcome::skip("Metadata::paths failed on the reproducer");
+    };
+    match run_order(&md, paths.clone()) {
+        Ok(a) if a.failed.is_none() => {}
+        _ => return Outcome::skip("reproducer is not error-free in metadata order"),
+    }
+    // a.veryl, pkg.veryl, util.veryl -> util, pkg, a
+    let order: Vec<PathSet> = vec![paths[2].clone(), paths[1].clone(), paths[0].clone()];
+    match run_order(&md, order) {
+        Err(m) if m.contains("WouldCycle") => Outcome::fail(
+            CYCLE_KNOWN,
+            format!("known/C24/generic-arg-file-cycle builds in sorted order; for the order util, pkg, a the analysis panics: {m}"),
+            json!({"reproducer": "generic-arg-file-cycle"}),
+        ),
+        Err(m) => Outcome::fail(
+            format!("order-dependent-panic:{}", first_line(&m).chars().take(60).collect::<String>()),
+            m,
+            json!({"reproducer": "generic-arg-file-cycle"}),
+        ),
+        Ok(_) => Outcome::pass(
+            hash_str("generic-arg-file-cycle"),
+            false,
+            vec!["fixed_reproducer_passes(defect_fixed?)".into()],
+            "no panic".into(),
+        ),
+    }
 }
 
 /// Reproducer of DEP_ORDER_KNOWN: build the fixed project with two path
@@ -871,13 +928,19 @@ pub fn run(ctx: &Ctx) {
         let out = fixed_case("generic-instance-order");
         ctx.record("fixed", out, json!({"reproducer": "generic-instance-order"}));
         ctx.record("fixed", fixed_dep_order(), json!({"reproducer": "two-path-dependencies"}));
+        ctx.record("fixed", fixed_cycle(), json!({"reproducer": "generic-arg-file-cycle"}));
     }
+    let only = std::env::var("VERIF_C24_SUB").unwrap_or_default(); // development aid
+    if only.is_empty() || only == "permute" {
     ctx.run("permute", CaseCfg::cases(na).choices(2500).timeout_s(600).shrink_iters(60), move |d| {
         permute_case(d, thorough)
     });
+    }
+    if only.is_empty() || only == "cli" {
     ctx.run("cli", CaseCfg::cases(nb).choices(2500).timeout_s(1200).shrink_iters(25), move |d| {
         cli_case(d, thorough)
     });
+    }
     drop(xdg);
     ctx.assume("in-process sub: veryl::pipeline::analyze (fail_fast, incremental off) + Emitter::new/emit/source_map as cmd_build calls them, on the PathSet list of Metadata::paths; each order on a fresh 8 MiB thread; the fragment cache is not involved (C04)");
     ctx.assume("diagnostic identity = severity, code, rendered message, owning file, label offsets/lengths/texts; compared as a SET as the property states (the analyzer repeats a warning of a module once per elaboration of it, and how often depends on the processing order: counted as a class, not asserted)");
